@@ -2,8 +2,10 @@ package main
 
 import (
 	"fmt"
+	"strings"
 
 	"github.com/jub0bs/cors"
+	"github.com/jub0bs/cors/internal/zzverif/ref"
 	"github.com/jub0bs/cors/internal/zzverif/vlib"
 )
 
@@ -15,7 +17,72 @@ type c08Case struct {
 	Init string   `json:"init"`
 	Hist []string `json:"history"`
 	Bad  CfgLit   `json:"invalid_config"`
-	Cont []string `json:"continuation"`
+	// Derive != "": the invalid configuration is an edit of the middleware's current Config() (Bad is ignored)
+	Derive string   `json:"derived_from_current,omitempty"`
+	Cont   []string `json:"continuation"`
+}
+
+var c08Derivations = []string{"cur+maxage", "cur+origin+badmethod", "cur+origins+status", "cur+origin+badorigin", "cur-reversed+origin+badheader", "cur+pna-both"}
+
+// c08Derive builds an invalid configuration that is a small edit of cur: the current origins (as a prefix),
+// near misses of the first pattern added (other scheme, another port, a sibling host), and one defect elsewhere.
+func c08Derive(cur *cors.Config, how string) *cors.Config {
+	if cur == nil {
+		return nil
+	}
+	c := *cur
+	c.Origins = append([]string(nil), cur.Origins...)
+	c.Methods = append([]string(nil), cur.Methods...)
+	c.RequestHeaders = append([]string(nil), cur.RequestHeaders...)
+	c.ResponseHeaders = append([]string(nil), cur.ResponseHeaders...)
+	var extras []string
+	for _, p := range cur.Origins {
+		if p == "*" {
+			continue
+		}
+		scheme, host, port, ok := ref.SplitOrigin(p)
+		if !ok {
+			continue
+		}
+		base := strings.TrimPrefix(host, "*.")
+		other := "http"
+		if scheme == "http" {
+			other = "https"
+		}
+		if port == "" {
+			extras = append(extras, scheme+"://"+base+":8443")
+		} else {
+			extras = append(extras, scheme+"://"+base)
+		}
+		extras = append(extras, other+"://"+base, scheme+"://x"+base, "https://extra.example")
+		break
+	}
+	if len(extras) == 0 {
+		extras = []string{"https://extra.example", "http://extra.example", "https://a.example", "https://x.a.example"}
+	}
+	c.DangerouslyTolerateInsecureOrigins = cur.DangerouslyTolerateInsecureOrigins
+	switch how {
+	case "cur+maxage":
+		c.MaxAgeInSeconds = -2
+	case "cur+origin+badmethod":
+		c.Origins = append(c.Origins, extras[0])
+		c.Methods = append(c.Methods, "CONNECT")
+	case "cur+origins+status":
+		c.Origins = append(c.Origins, extras[1], extras[3])
+		c.PreflightSuccessStatus = 199
+	case "cur+origin+badorigin":
+		c.Origins = append(c.Origins, extras[2], "https://bad.example/path")
+	case "cur-reversed+origin+badheader":
+		for i, j := 0, len(c.Origins)-1; i < j; i, j = i+1, j-1 {
+			c.Origins[i], c.Origins[j] = c.Origins[j], c.Origins[i]
+		}
+		c.Origins = append(c.Origins, extras[0])
+		c.RequestHeaders = append(c.RequestHeaders, "Cookie")
+	case "cur+pna-both":
+		c.Origins = append(c.Origins, extras[3])
+		c.PrivateNetworkAccess, c.PrivateNetworkAccessInNoCORSModeOnly = true, true
+	}
+	return &c
 }
 
 func c08Bads() []CfgLit {
@@ -67,11 +134,19 @@ func c08Judge(k c08Case) *vlib.Failure {
 	before := observe(m, smSuite)
 	cfgBefore := m.Config()
 	bad := k.Bad.Config()
+	badText := k.Bad.GoLiteral()
+	if k.Derive != "" {
+		d := c08Derive(cfgBefore, k.Derive)
+		if d == nil {
+			return nil // passthrough: nothing to derive from
+		}
+		bad, badText = *d, fmt.Sprintf("%s = %+v", k.Derive, *d)
+	}
 	if err := m.Reconfigure(&bad); err == nil {
-		return vlib.Failf("Reconfigure accepted the invalid configuration %s", k.Bad.GoLiteral())
+		return vlib.Failf("Reconfigure accepted the invalid configuration %s", badText)
 	}
 	if i := firstDiff(before, observe(m, smSuite)); i >= 0 {
-		return vlib.Failf("after the rejected Reconfigure(%s) in state %v from %s, the answer to %s changed", k.Bad.GoLiteral(), k.Hist, k.Init, smSuite[i])
+		return vlib.Failf("after the rejected Reconfigure(%s) in state %v from %s, the answer to %s changed", badText, k.Hist, k.Init, smSuite[i])
 	}
 	if !cfgEqual(cfgBefore, m.Config()) {
 		return vlib.Failf("after the rejected Reconfigure, Config() changed from %+v to %+v", cfgBefore, m.Config())
@@ -83,7 +158,7 @@ func c08Judge(k c08Case) *vlib.Failure {
 		}
 		a, b := observe(m, smSuite), observe(twin, smSuite)
 		if j := firstDiff(a, b); j >= 0 {
-			return vlib.Failf("state %v from %s; rejected Reconfigure(%s); then %v: the answer to %s is %s, the untouched twin answers %s", k.Hist, k.Init, k.Bad.GoLiteral(), k.Cont[:i+1], smSuite[j], a[j], b[j])
+			return vlib.Failf("state %v from %s; rejected Reconfigure(%s); then %v: the answer to %s is %s, the untouched twin answers %s", k.Hist, k.Init, badText, k.Cont[:i+1], smSuite[j], a[j], b[j])
 		}
 		if !cfgEqual(m.Config(), twin.Config()) {
 			return vlib.Failf("after continuation %v Config() differs from the untouched twin's", k.Cont[:i+1])
@@ -103,7 +178,7 @@ func c08Test(k c08Case) string {
 
 func checkC08(c *vlib.Ctx) (string, string) {
 	ck := &Checker[c08Case]{C: c, Judge: c08Judge, Test: c08Test}
-	rule := "from every state of the closure of {SetDebug, Reconfigure(nil/A/B/C/invalid/Config())} on the real Middleware (both initial states), every invalid configuration of a 19-element family (single and multiple defects in every field, other fields valid and different from every state) is passed to Reconfigure, then every continuation of length <= 2 is applied to it and to an untouched twin (bounded bisimulation); non-trivial = distinct (state, invalid configuration, continuation) with a configured start state"
+	rule := "from every state of the closure of {SetDebug, Reconfigure(nil/A/B/C/invalid/Config())} on the real Middleware (both initial states), every invalid configuration of a 19-element family (single and multiple defects in every field, other fields valid and different from every state) and of 6 edits of the current Config() (current origins kept as a prefix plus near-miss patterns, one defect elsewhere) is passed to Reconfigure, then every continuation of length <= 2 is applied to it and to an untouched twin (bounded bisimulation); non-trivial = distinct (state, invalid configuration, continuation) with a configured start state"
 	if ck.Replay() {
 		return levelMC, rule
 	}
@@ -132,11 +207,16 @@ func checkC08(c *vlib.Ctx) (string, string) {
 		}
 		c.States.Add(int64(r.States))
 		c.Set("closure_"+init, map[string]any{"states": r.States, "transitions": r.Transitions, "closed": r.Closed})
-		prod := vlib.Product{Sizes: []int{len(r.Reps), len(bads), len(conts)}}
+		prod := vlib.Product{Sizes: []int{len(r.Reps), len(bads) + len(c08Derivations), len(conts)}}
 		c.ParRange(prod.Count(), 4, "C08 "+init, func(i int64) {
 			var tmp [4]int
 			ix := prod.At(i, tmp[:0])
-			k := c08Case{Init: init, Bad: bads[ix[1]], Cont: conts[ix[2]]}
+			k := c08Case{Init: init, Cont: conts[ix[2]]}
+			if ix[1] < len(bads) {
+				k.Bad = bads[ix[1]]
+			} else {
+				k.Derive = c08Derivations[ix[1]-len(bads)]
+			}
 			for _, o := range r.Reps[ix[0]] {
 				k.Hist = append(k.Hist, smOps[o])
 			}
